@@ -243,14 +243,22 @@ def lowerBin (op : WOp) (t : WTy) (lk rk : Bool) : Option CExpr :=
 /-- writeExprUnaryOp -/
 def lowerUn (op : WUn) : Option CExpr := (cUnOf op).map (fun c => CExpr.un c (.hole 0))
 
-/-- writeExprAssociativeOp with `n+2` operands, left to right -/
-def lowerAssoc (op : WOp) (t : WTy) (n : Nat) : Option CExpr :=
+/-- writeExprAssociativeOp with `n+2` operands, left to right; `k0`, `k1`: the
+first two operands have a ConstValue (they are then `Nu` literals, of C type
+`unsigned int` when they fit: after fixes/C04-assoc-leading-constants.patch the
+first one is converted to the node's type when that is base.u64) -/
+def lowerAssocK (op : WOp) (t : WTy) (n : Nat) (k0 k1 : Bool) : Option CExpr :=
   match cAssocOf op with
   | some c =>
     let widen := op == .mul && t.isSmall
-    let first := if widen then CExpr.cast .u32 (.hole 0) else .hole 0
+    let castFirst := !widen && k0 && k1 && t == .u64 && !op.isLogical
+    let first := if widen then CExpr.cast .u32 (.hole 0)
+      else if castFirst then CExpr.cast .u64 (.hole 0) else .hole 0
     some ((List.range (n + 1)).foldl (fun acc i => CExpr.bin c acc (.hole (i + 1))) first)
   | none => none
+
+/-- … when the first two operands are not both constants -/
+def lowerAssoc (op : WOp) (t : WTy) (n : Nat) : Option CExpr := lowerAssocK op t n false false
 
 /-- operand shapes that matter to writeExprAs -/
 inductive AsArg where
